@@ -112,7 +112,7 @@ func buildC14(cfg *mon.Config) []*mon.Sub {
 				if q == '\'' {
 					other = "\""
 				}
-				alpha := []string{string(q), other, "a", "é", "€", "😀", " ", "\n"}
+				alpha := []string{string(q), other, "a", "é", "€", "😀", " ", "\n", "\ufffd"}
 				enumStrings(alpha, maxL, func(parts []string) {
 					s := joinParts(parts)
 					for _, st := range c14States {
@@ -146,7 +146,7 @@ func buildC14(cfg *mon.Config) []*mon.Sub {
 		Floor: 1000,
 		Gen: func(emit func(string)) {
 			r := cfg.Rng("c14-random")
-			pool := []string{"a", "Z", "0", " ", "\n", "\r", "\t", "'", "\"", "`", "«", "»", "é", "ÿ", "ш", "€", "￾", "😀", "𝄞", "''", "\"\"", ",", ";", "\ufeff", "\u00a0", "\u2028", "%", "%s", "Ч", "•"}
+			pool := []string{"a", "Z", "0", " ", "\n", "\r", "\t", "'", "\"", "`", "«", "»", "é", "ÿ", "ш", "€", "￾", "😀", "𝄞", "''", "\"\"", ",", ";", "\ufeff", "\u00a0", "\u2028", "%", "%s", "Ч", "•", "\ufffd", "\x00", "\x01"}
 			for i := 0; i < cfg.N(30000, 2000000); i++ {
 				var b strings.Builder
 				n := r.Intn(100)
